@@ -258,6 +258,11 @@ def run_shard(prop, tier, seed, shard, nshards, out):
         tb = traceback.format_exc().strip().splitlines()
         ctx.inconclusive["harness_error: " + tb[-1][:200] + " @ " + " | ".join(
             l.strip() for l in tb[-7:-1])[:600]] += 1
+    gen = sys.modules.get("rv.gen.trees")
+    if gen is not None:  # how many generated trees were strided / queried before use
+        for k, v in gen.WARM_STATS.items():
+            if v:
+                ctx.counters["trees_" + k] += v
     d = ctx.dump()
     d["status"] = status
     if cov is not None:
